@@ -199,13 +199,13 @@ func Walk(v IVisitor, n INode) {
 
 		Walk(v, n.Extends)
 
-		for _, item := range n.List {
-			if item.StaticBlock != nil {
-				Walk(v, item.StaticBlock)
-			} else if item.Method != nil {
-				Walk(v, item.Method)
+		for i := 0; i < len(n.List); i++ {
+			if n.List[i].StaticBlock != nil {
+				Walk(v, n.List[i].StaticBlock)
+			} else if n.List[i].Method != nil {
+				Walk(v, n.List[i].Method)
 			} else {
-				Walk(v, &item.Field)
+				Walk(v, &n.List[i].Field)
 			}
 		}
 	case *LiteralExpr:
